@@ -499,8 +499,17 @@ func c05SameSearch(c *Ctx, sx *symx.Ctx) {
 	}
 	// the hit is returned only when found
 	hitGuard := false
+	// the `found` result: the boolean among the results of the read
+	foundIdx := 1
+	if sig := g.Common().Signature(); sig != nil {
+		for i := 0; i < sig.Results().Len(); i++ {
+			if b, ok := sig.Results().At(i).Type().Underlying().(*types.Basic); ok && b.Kind() == types.Bool {
+				foundIdx = i
+			}
+		}
+	}
 	if len(gstack) == 0 {
-		found := resultValue(g, 1)
+		found := resultValue(g, foundIdx)
 		for _, iff := range ssau.Ifs(fn) {
 			if iff.Cond == found {
 				hitGuard = true
@@ -510,7 +519,7 @@ func c05SameSearch(c *Ctx, sx *symx.Ctx) {
 		// in the lookup step: found is tested, and the step reports true exactly
 		// with the converted hit; the caller tests what the step reports
 		step := gstack[0].Common().StaticCallee()
-		found := resultValue(g, 1)
+		found := resultValue(g, foundIdx)
 		inner := false
 		for _, iff := range ssau.Ifs(step) {
 			if iff.Cond == found {
